@@ -105,10 +105,14 @@ class FlatMieContribution(Contribution):
         if bottom_pressure < 0:
 
             bottom_pressure = pressure_levels.max()
+        else:
+            bottom_pressure = np.log10(bottom_pressure)
 
-        top_pressure = np.log10(self.mieTopPressure)
+        top_pressure = self.mieTopPressure
         if top_pressure < 0:
             top_pressure = pressure_levels.min()
+        else:
+            top_pressure = np.log10(top_pressure)
 
         P_left = pressure_levels[:-1]
         P_right = pressure_levels[1:]
@@ -120,7 +124,7 @@ class FlatMieContribution(Contribution):
         P_min = P_left[save_start:save_stop+1]
         P_max = P_right[save_start:save_stop+1]
         weight = np.minimum(P_range[-1], P_max) - np.maximum(P_range[0], P_min)
-        weight /= weight.max()
+        weight = np.maximum(weight, 0.0)/(P_max - P_min)
         sigma_xsec = np.zeros(shape=(self._nlayers, wngrid.shape[0]))
         sigma_xsec[save_start:save_stop+1] = weight[:,  None]*self.mieMixing
 
